@@ -170,3 +170,150 @@ pub fn stale_merge_schedule_mode(rng: &mut Rng, mode: u8) -> SchedOutcome {
     out.problems = errs;
     out
 }
+
+/// Forced schedule for the crash window between the replacement of `meta.json` and the directory
+/// sync that makes the rename durable (property C01/C10): the writer is dropped while its merge
+/// thread is parked; the successor's commit - which makes files of the previous commit obsolete -
+/// is parked at the `sync_directory` that FOLLOWS the replacement of `meta.json`; only then does
+/// the old generation finish its merge. Whatever the old generation does at the end of its merge
+/// (in particular a garbage collection driven by the shared segment-meta inventory, which the
+/// successor's `store_meta` has just emptied of the previous commit) must not unlink a file that
+/// the DURABLE `meta.json` still references: a power cut inside the window would otherwise come
+/// back with a commit whose files are gone. The online monitor T3 of `MonDir` decides.
+pub fn stale_gc_window_schedule(rng: &mut Rng) -> SchedOutcome {
+    let mut out = SchedOutcome { forced: false, shape: String::new(), problems: vec![], counters: vec![] };
+    let cfg = ExecCfg { threads: 1, merge_policy: false, sort: None, budget_per_thread: 15_000_000 };
+    let mon = MonDir::new(MonCfg { monitors: true, ..Default::default() });
+    let mut ex = match Exec::create(Box::new(mon.clone()), cfg, Some(mon.clone())) {
+        Ok(e) => e,
+        Err(e) => {
+            out.problems.push(("api-error:create".into(), json!(e)));
+            return out;
+        }
+    };
+    let mut g = HistGen::new();
+    let nseg = rng.urange(2, 4);
+    for _ in 0..nseg {
+        for _ in 0..rng.urange(2, 8) {
+            ex.step(&Op::Add(g.doc(rng, 2)));
+        }
+        ex.step(&Op::Commit);
+    }
+    // a first committed delete: the segments it hits own a `.del` file, which the successor's
+    // delete replaces (the old `.del` is then garbage as soon as the new meta is in memory)
+    let first_delete = rng.bool();
+    if first_delete {
+        ex.step(&Op::DeleteTerm(Pred::Grp(0)));
+        ex.step(&Op::Commit);
+    }
+    let ids = ex.index.searchable_segment_ids().unwrap_or_default();
+    if ids.len() < 2 {
+        return out;
+    }
+    // flavour 0: the writer is dropped while the merge thread is parked; flavour 1: the writer is
+    // rolled back while the old updater is parked INSIDE end_merge (the task was accepted before
+    // the kill; it goes on to the end of end_merge, where the garbage collection used to be)
+    let flavour = rng.below(2);
+    let gate1 = mon.add_gate(OpPred::kind(OpKind::OpenWrite).role("merge"), rng.below(4));
+    let fut = ex.writer.as_mut().unwrap().merge(&ids);
+    if !mon.wait_parked(gate1, Duration::from_secs(5)) {
+        mon.release_all_gates();
+        let _ = fut.wait();
+        out.counters.push("stale_gc:merge_gate_not_reached".into());
+        return out;
+    }
+    let mut held = gate1;
+    if flavour == 1 {
+        // a delete committed during the merge: the merged sources get a `.del` file and end_merge
+        // has one to write for the merged segment, which is where the old updater is parked
+        ex.step(&Op::DeleteTerm(Pred::Grp(0)));
+        ex.step(&Op::Add(g.doc(rng, 2)));
+        ex.step(&Op::Commit);
+        let gate_em = mon.add_gate(OpPred::kind(OpKind::OpenWrite).role("updater").fkind("del"), 0);
+        mon.release_gate(gate1);
+        if !mon.wait_parked(gate_em, Duration::from_secs(5)) {
+            mon.release_all_gates();
+            let _ = fut.wait();
+            out.counters.push("stale_gc:end_merge_wrote_no_del".into());
+            return out;
+        }
+        held = gate_em;
+        ex.step(&Op::Rollback);
+    } else {
+        ex.step(&Op::Reopen { wait_merges: false });
+    }
+    let gate1 = held;
+    // first commit S1 of the successor: a segment of its own (group 7 only) and a delete that
+    // gives the older segments a `.del` file of S1. S1 completes; it is the durable commit.
+    for _ in 0..rng.urange(1, 4) {
+        let mut d = g.doc(rng, 2);
+        d.grp = 7;
+        ex.step(&Op::Add(d));
+    }
+    let s1_delete = rng.bool();
+    if s1_delete {
+        ex.step(&Op::DeleteTerm(Pred::Grp(1)));
+    }
+    ex.step(&Op::Commit);
+    // second commit S2: empties the segment S1 created (all of its files are then referenced by
+    // nothing but S1) and replaces the `.del` files of S1
+    ex.step(&Op::DeleteTerm(Pred::Grp(7)));
+    if rng.bool() {
+        ex.step(&Op::DeleteTerm(Pred::Grp(0)));
+    }
+    for _ in 0..rng.urange(1, 3) {
+        ex.step(&Op::Add(g.doc(rng, 2)));
+    }
+    // second sync_directory of the successor's commit = the one behind the meta.json replacement
+    let gate2 = mon.add_gate(OpPred::kind(OpKind::SyncDir).role("updater"), 1);
+    let (tx, rx) = std::sync::mpsc::channel::<&'static str>();
+    let mon2 = mon.clone();
+    let orchestrator = std::thread::spawn(move || {
+        let parked = mon2.wait_parked(gate2, Duration::from_secs(5));
+        mon2.release_gate(gate1);
+        let waiter = std::thread::spawn(move || {
+            let r = fut.wait();
+            let _ = tx.send(if r.is_ok() { "ok" } else { "err" });
+        });
+        // the old generation finishes (merge thread + end_merge on the old updater) while the
+        // successor's commit stands inside the window
+        let outcome = rx.recv_timeout(Duration::from_secs(3)).unwrap_or("timeout");
+        mon2.release_gate(gate2);
+        mon2.release_all_gates();
+        let _ = waiter.join();
+        (parked, outcome)
+    });
+    ex.step(&Op::Commit);
+    let (parked, outcome) = orchestrator.join().unwrap_or((false, "orchestrator-panicked"));
+    out.counters.push(
+        if parked { "stale_gc:successor_parked_between_meta_replacement_and_dir_sync" } else { "stale_gc:window_gate_not_reached" }.into(),
+    );
+    out.counters.push(format!("stale_gc:old_merge_returned_{outcome}"));
+    let mut errs = ex.check_committed(true);
+    if errs.is_empty() {
+        ex.step(&Op::Add(g.doc(rng, 2)));
+        ex.step(&Op::Commit);
+        errs = ex
+            .check_committed(true)
+            .into_iter()
+            .map(|(s, d)| (format!("after-one-more-commit:{s}"), d))
+            .collect();
+    }
+    for (sig, d) in ex.problems.drain(..) {
+        if !is_known("C02", &sig) {
+            errs.push((format!("live:{sig}"), d));
+        }
+    }
+    for v in mon.take_violations() {
+        errs.push((v.sig, v.detail));
+    }
+    out.forced = parked && outcome != "timeout";
+    out.shape = format!(
+        "gc-window:{}:nseg={nseg}:{}:{}:{outcome}",
+        if flavour == 1 { "rolled-back-inside-end_merge" } else { "writer-dropped" },
+        if first_delete { "del-file-replaced" } else { "no-earlier-delete" },
+        if s1_delete { "s1-del-files-replaced" } else { "s1-segment-emptied-only" }
+    );
+    out.problems = errs;
+    out
+}
